@@ -1,4 +1,5 @@
 mod arith;
+mod cfgexec;
 mod drive;
 mod migrate;
 mod pb;
@@ -210,6 +211,13 @@ fn main() {
                 writeln!(out, "{}", r).unwrap();
             }
             println!("{}", json!({"records": recs.len()}));
+        }
+        Some("cfgexec") => {
+            // cfgexec <tlc-output-with-CFG-lines> <out.ndjson>
+            let text = std::fs::read_to_string(&args[2]).unwrap();
+            let mut out = std::io::BufWriter::new(std::fs::File::create(&args[3]).unwrap());
+            let n = cfgexec::run_all(&text, &mut out);
+            println!("{}", json!({"records": n}));
         }
         Some("hookvec") => {
             // hookvec <seed> <n> <out>: the contract's derive_intermediate_sender next to the simulator's own
